@@ -83,7 +83,8 @@ CLAIMS = {
    text="Lean theorems for ALL token lists and ALL strings: parser_decides_grammar (the model's parser accepts a token list iff its kinds are derivable from "
         "`result` by the 28 productions of chords.y, taken as DATA regenerated from the .y file on every run: Derives <-> spelled-out language <-> "
         "recursive-descent parser, soundness and completeness), tree_faithful / no_suffix_dropped (the tree lists in order exactly the tokens read, kind and "
-        "text; only the optional `_` is not recorded), empty_rejected, accepted_ends_closed (a text cut inside a chord or rest is rejected), lexer_total "
+        "text; only the optional `_` is not recorded), empty_rejected, accepted_ends_closed (a text cut inside a chord or rest is rejected), text_is_tokens_and_trivia (when the lexer ends silently the text is exactly the tokens' own characters in order with only white space "
+        "and comments before, between and after them), lexer_total "
         "(never hangs: fuel sufficiency with the generated EOF guards), no_silent_stop (the scanner's silent EOF cannot fire inside the input: generated rune "
         "tables), accepts_iff, never_crashes. Decided directly on every run: goyacc regenerates the committed parser from chords.y (modulo header and //line). "
         "Tie: the real lexer (token stream) on all strings over a 19-symbol alphabet up to length 3 (4) + 3,000 (40,000) generated/mutated texts; the real goyacc "
@@ -136,7 +137,8 @@ CLAIMS = {
         "written_file_parses / write_output_parses (Crd/Props/C08Bytes.lean: for EVERY document `crd write` accepts, the strict reader written from the SMF "
         "specification accepts the encoder's bytes and returns format 0/1, division 960, `--track` tracks and exactly the written events of every track - "
         "running status on both sides, meta lengths, key-signature range for every supported key, chunk lengths; hypotheses: texts < 2^28 bytes, chunks < 2^32 "
-        "bytes, the format's own limits), delta_times_fit (every delta time of every track is at most the piece length <= 0x0FFFFFFF, and gomidi's variable-length encoding of it is read back "
+        "bytes, the format's own limits), written_tracks_balanced (in every track of the file as the strict reader sees it, every note-on is closed by a note-off of the same key "
+        "and channel, nothing else is closed, nothing stays open: Crd.Spec.notesBalanced), delta_times_fit (every delta time of every track is at most the piece length <= 0x0FFFFFFF, and gomidi's variable-length encoding of it is read back "
         "exactly by the strict reader: encoder against the specification's decoder for EVERY value that can occur), too_long_refused (D22 fix). "
         "The strict SMF reader (Crd.Spec.parseSMF, written from the specification, shares no code with the encoder or gomidi) is executed on the REAL bytes of "
         "every generated file on every run, together with the note-balance and first-track checks (oracle smf-strict). Tie: byte equality of real output and "
